@@ -57,7 +57,7 @@ impl<R: Registry> Archetypes<R> {
         ensures r@ == IMap::<archetype::IdentifierRef<R>, archetype::Archetype<R>>::empty() { unimplemented!() }
 
     #[verifier::external_body]
-    pub unsafe fn get_unchecked_mut(&mut self, identifier: archetype::IdentifierRef<R>) -> (r: &mut archetype::Archetype<R>)
+    pub unsafe fn vx_get_unchecked_mut(&mut self, identifier: archetype::IdentifierRef<R>) -> (r: &mut archetype::Archetype<R>)
         requires old(self)@.dom().contains(identifier),
         ensures *r == old(self)@[identifier],
                 final(self)@ == old(self)@.insert(identifier, *final(r)) { unimplemented!() }
@@ -93,8 +93,8 @@ impl<R: Registry> Archetypes<R> {
     #[verifier::external_body]
     pub fn shrink_to_fit(&mut self)
         ensures
-            forall|k: archetype::IdentifierRef<R>| final(self)@.dom().contains(k) ==
-                (old(self)@.dom().contains(k) && (#[trigger] old(self)@[k]).length > 0),
+            forall|k: archetype::IdentifierRef<R>| #![trigger final(self)@.dom().contains(k)] #![trigger old(self)@[k]]
+                final(self)@.dom().contains(k) == (old(self)@.dom().contains(k) && old(self)@[k].length > 0),
             forall|k: archetype::IdentifierRef<R>| final(self)@.dom().contains(k) ==> {
                 &&& (#[trigger] final(self)@[k]).length == old(self)@[k].length
                 &&& final(self)@[k].ids() == old(self)@[k].ids()
@@ -287,6 +287,200 @@ EXTEND_PROOF = r'''proof {
         }'''
 
 
+REMOVE_PROOF = r'''proof {
+            let id = entity_identifier;
+            let a0 = vx_w0.entity_allocator;
+            let am = vx_mid.entity_allocator;
+            let a1 = self.entity_allocator;
+            let m0 = vx_w0.archetypes@;
+            let m1 = self.archetypes@;
+            let k = location.identifier;
+            let idx = location.index as int;
+            let t0 = m0[k];
+            let t1 = m1[k];
+            let last = t0.length - 1;
+            let moved = t0.ids()[last];
+            assert(m1 == vx_mid.archetypes@);
+            assert(t0.ids()[idx] == id);
+            t0.lemma_ids_distinct(&a0);
+            assert(a0.resolves(moved)) by { assert(t0.agrees(&a0)); }
+            // identifiers stored in other tables are neither `id` nor `moved`
+            assert forall|k2: archetype::IdentifierRef<Registry>, r: int| m0.dom().contains(k2) && k2 != k && 0 <= r < m0[k2].length
+                implies (#[trigger] m0[k2].ids()[r]) != id && m0[k2].ids()[r] != moved by {
+                assert(m0[k2].agrees(&a0));
+                assert(a0.view()[m0[k2].ids()[r]].identifier == k2);
+                assert(a0.view()[id].identifier == k);
+                assert(a0.view()[moved].identifier == k);
+            }
+            // W1
+            assert forall|k2: archetype::IdentifierRef<Registry>| m1.dom().contains(k2) implies
+                (#[trigger] m1[k2]).wf() && m1[k2].key() == k2 && m1[k2].agrees(&a1) by {
+                if k2 != k {
+                    assert(m0.dom().contains(k2) && m1[k2] == m0[k2]);
+                    assert(m0[k2].agrees(&a0));
+                    assert forall|r: int| 0 <= r < m1[k2].length implies a1.resolves(#[trigger] m1[k2].ids()[r])
+                        && a1.view()[m1[k2].ids()[r]] == (Location { identifier: m1[k2].key(), index: r as usize }) by {
+                        let i = m0[k2].ids()[r];
+                        assert(i != id && i != moved);
+                        assert(a0.resolves(i));
+                        assert(am.resolves(i));
+                    }
+                } else {
+                    assert(t1.agrees(&am));
+                    assert forall|r: int| 0 <= r < t1.length implies a1.resolves(#[trigger] t1.ids()[r])
+                        && a1.view()[t1.ids()[r]] == (Location { identifier: t1.key(), index: r as usize }) by {
+                        let i = t1.ids()[r];
+                        assert(am.resolves(i));
+                        assert(i != id) by {
+                            if r == idx { assert(i == t0.ids()[last]); } else { assert(i == t0.ids()[r]); }
+                        }
+                    }
+                }
+            }
+            // W2
+            assert forall|i: entity::Identifier| a1.resolves(i) implies ({
+                let l = #[trigger] a1.view()[i];
+                m1.dom().contains(l.identifier) && l.index < m1[l.identifier].length && m1[l.identifier].ids()[l.index as int] == i
+            }) by {
+                assert(am.resolves(i) && i != id);
+                assert(a0.resolves(i));
+                let l0 = a0.view()[i];
+                assert(m0.dom().contains(l0.identifier));
+                if idx < last && i == moved {
+                    assert(t1.ids()[idx] == moved);
+                } else {
+                    assert(am.view()[i] == l0);
+                    if l0.identifier == k {
+                        assert(t0.ids()[l0.index as int] == i);
+                        assert(l0.index as int != idx);
+                        if l0.index as int == last { assert(i == moved); }
+                        assert(t1.ids()[l0.index as int] == i);
+                    } else {
+                        assert(m1[l0.identifier] == m0[l0.identifier]);
+                    }
+                }
+            }
+            // the map view
+            assert(self.view() =~= vx_w0.view().remove(id)) by {
+                assert forall|i: entity::Identifier| self.view().dom().contains(i) == vx_w0.view().remove(id).dom().contains(i) by {
+                    assert(a1.resolves(i) == (am.resolves(i) && i != id));
+                    assert(am.resolves(i) == a0.resolves(i));
+                }
+                assert forall|i: entity::Identifier| self.view().dom().contains(i) implies
+                    #[trigger] self.view()[i] == vx_w0.view().remove(id)[i] by {
+                    assert(am.resolves(i) && i != id);
+                    assert(a0.resolves(i));
+                    let l0 = a0.view()[i];
+                    assert(m0.dom().contains(l0.identifier));
+                    if idx < last && i == moved {
+                        assert(t1.rows()[idx] == t0.rows()[last]);
+                        assert(l0 == (Location { identifier: k, index: last as usize }));
+                    } else {
+                        assert(am.view()[i] == l0);
+                        if l0.identifier == k {
+                            assert(t0.ids()[l0.index as int] == i);
+                            assert(l0.index as int != idx);
+                            if l0.index as int == last { assert(i == moved); }
+                            assert(t1.rows()[l0.index as int] == t0.rows()[l0.index as int]);
+                        } else {
+                            assert(m1[l0.identifier] == m0[l0.identifier]);
+                        }
+                    }
+                }
+            }
+        }'''
+
+CLEAR_PROOF = r'''proof {
+            let a0 = vx_w0.entity_allocator;
+            let a1 = self.entity_allocator;
+            let m0 = vx_w0.archetypes@;
+            let m1 = self.archetypes@;
+            assert forall|i: entity::Identifier| !a1.resolves(i) by {
+                if a0.resolves(i) {
+                    let l = a0.view()[i];
+                    assert(m0.dom().contains(l.identifier) && 0 <= l.index < m0[l.identifier].length && m0[l.identifier].ids()[l.index as int] == i);
+                    assert(vx_stored(m0, i));
+                }
+            }
+            assert forall|s: int| 0 <= s < a1.slots@.len() implies (#[trigger] a1.slots@[s]).location is None by {
+                a1.lemma_slots_len_fits();
+                let i = entity::Identifier { index: s as usize, generation: a1.slots@[s].generation };
+                assert(!a1.resolves(i));
+            }
+            lemma_count_zero(a1.slots@);
+            assert(self.view() =~= IMap::<entity::Identifier, (VxBits, archetype::VxRow)>::empty());
+        }'''
+
+SHRINK_PROOF = r'''proof {
+            let a0 = vx_w0.entity_allocator;
+            let a1 = self.entity_allocator;
+            let m0 = vx_w0.archetypes@;
+            let m1 = self.archetypes@;
+            assert forall|i: entity::Identifier| a1.resolves(i) == a0.resolves(i) by { }
+            assert forall|i: entity::Identifier| a0.resolves(i) implies a1.view()[i] == a0.view()[i] by { }
+            assert forall|k2: archetype::IdentifierRef<Registry>| m1.dom().contains(k2) implies
+                (#[trigger] m1[k2]).wf() && m1[k2].key() == k2 && m1[k2].agrees(&a1) by {
+                assert(m0.dom().contains(k2));
+                assert(m0[k2].agrees(&a0));
+                assert forall|r: int| 0 <= r < m1[k2].length implies a1.resolves(#[trigger] m1[k2].ids()[r])
+                    && a1.view()[m1[k2].ids()[r]] == (Location { identifier: m1[k2].key(), index: r as usize }) by {
+                    assert(a0.resolves(m0[k2].ids()[r]));
+                }
+            }
+            assert forall|i: entity::Identifier| a1.resolves(i) implies ({
+                let l = #[trigger] a1.view()[i];
+                m1.dom().contains(l.identifier) && l.index < m1[l.identifier].length && m1[l.identifier].ids()[l.index as int] == i
+            }) by {
+                let l = a0.view()[i];
+                assert(m0.dom().contains(l.identifier) && l.index < m0[l.identifier].length);
+                assert(m0[l.identifier].length > 0);
+            }
+            assert(self.view() =~= vx_w0.view()) by {
+                assert forall|i: entity::Identifier| self.view().dom().contains(i) implies #[trigger] self.view()[i] == vx_w0.view()[i] by {
+                    let l = a0.view()[i];
+                    assert(m0.dom().contains(l.identifier) && l.index < m0[l.identifier].length);
+                    assert(m1.dom().contains(l.identifier));
+                }
+            }
+        }'''
+
+RESERVE_PROOF = r'''proof {
+            let bits = vx_bits_of::<Entity>();
+            let a0 = vx_w0.entity_allocator;
+            let m0 = vx_w0.archetypes@;
+            let m1 = self.archetypes@;
+            let k = vx_selected_key(m0, bits);
+            assert(self.entity_allocator == a0);
+            assert forall|k2: archetype::IdentifierRef<Registry>| m1.dom().contains(k2) implies
+                (#[trigger] m1[k2]).wf() && m1[k2].key() == k2 && m1[k2].agrees(&a0) by {
+                if k2 != k {
+                    assert(m0.dom().contains(k2) && m1[k2] == m0[k2]);
+                } else if m0.dom().contains(k) {
+                    assert(m0[k].agrees(&a0));
+                    assert forall|r: int| 0 <= r < m1[k].length implies a0.resolves(#[trigger] m1[k].ids()[r])
+                        && a0.view()[m1[k].ids()[r]] == (Location { identifier: m1[k].key(), index: r as usize }) by {
+                        assert(m1[k].ids()[r] == m0[k].ids()[r]);
+                    }
+                }
+            }
+            assert forall|i: entity::Identifier| a0.resolves(i) implies ({
+                let l = #[trigger] a0.view()[i];
+                m1.dom().contains(l.identifier) && l.index < m1[l.identifier].length && m1[l.identifier].ids()[l.index as int] == i
+            }) by {
+                let l = a0.view()[i];
+                assert(m0.dom().contains(l.identifier));
+                if l.identifier != k { assert(m1[l.identifier] == m0[l.identifier]); }
+            }
+            assert(self.view() =~= vx_w0.view()) by {
+                assert forall|i: entity::Identifier| self.view().dom().contains(i) implies #[trigger] self.view()[i] == vx_w0.view()[i] by {
+                    let l = a0.view()[i];
+                    assert(m0.dom().contains(l.identifier));
+                    if l.identifier != k { assert(m1[l.identifier] == m0[l.identifier]); }
+                }
+            }
+        }'''
+
+
 def build():
     u = arch.build()
     u.name = "world"
@@ -354,6 +548,50 @@ def build():
                   Hint("end", EXTEND_PROOF)],
            bind_tail=True,
            props=["C01", "C02", "C13", "C15"]),
+        Fn(W, WIMPL, "remove",
+           requires=PRE,
+           ensures=WF + FRAME + [
+               ("C01.remove.view", "final(self).view() == old(self).view().remove(entity_identifier)"),
+               ("C02.remove.dead", "!final(self).view().dom().contains(entity_identifier)"),
+               ("C01.remove.len", "final(self).len + (if old(self).view().dom().contains(entity_identifier) { 1int } else { 0int }) == old(self).len"),
+               ("C02.remove.generations", "final(self).entity_allocator.slots@.len() == old(self).entity_allocator.slots@.len() && forall|s: int| 0 <= s < old(self).entity_allocator.slots@.len() ==> (#[trigger] final(self).entity_allocator.slots@[s]).generation == old(self).entity_allocator.slots@[s].generation"),
+           ],
+           hints=[Hint("start", "let ghost vx_w0 = *self; proof { lemma_count_bound(self.entity_allocator.slots@); }"),
+                  Hint("before", "let ghost vx_mid = *self;", anchor=r"unsafe \{\s*self\.entity_allocator\.free_unchecked\(entity_identifier\)"),
+                  Hint("after", REMOVE_PROOF, anchor=r"self\.len -= 1"),
+                  Hint("end", "proof { if !vx_w0.entity_allocator.resolves(entity_identifier) { assert(self.view() =~= vx_w0.view().remove(entity_identifier)); } }")],
+           props=["C01", "C02", "C13", "C15"]),
+        Fn(W, WIMPL, "clear",
+           requires=PRE,
+           ensures=WF + FRAME + [
+               ("C01.clear.view", "final(self).view() == IMap::<entity::Identifier, (VxBits, archetype::VxRow)>::empty()"),
+               ("C01.clear.len", "final(self).len == 0"),
+           ],
+           hints=[Hint("start", "let ghost vx_w0 = *self;"),
+                  Hint("end", CLEAR_PROOF)],
+           props=["C01", "C02", "C13", "C15"]),
+        Fn(W, WIMPL, "shrink_to_fit",
+           requires=PRE,
+           ensures=WF + FRAME + [
+               ("C01.shrink.view", "final(self).view() == old(self).view()"),
+               ("C01.shrink.len", "final(self).len == old(self).len"),
+               ("C02.shrink.slots", "final(self).entity_allocator.slots@ == old(self).entity_allocator.slots@"),
+           ],
+           hints=[Hint("start", "let ghost vx_w0 = *self;"),
+                  Hint("end", SHRINK_PROOF)],
+           props=["C01", "C02", "C13", "C15"]),
+        Fn(W, WIMPL, "reserve", generics="<Entity, Indices>", where="",
+           rewrites=[(r"\.get_mut_or_insert_new_for_entity::<.*?>\(\)", ".vx_get_mut_or_insert_new_for_entity(Ghost(vx_bits_of::<Entity>()))",
+                      "R8: type-level selection of the archetype replaced by its abstract component set"),
+                     (r"\.reserve::<.*?>\(additional\)", ".reserve::<Entity>(additional)", "R8: type argument of Archetype::reserve (unused by the abstract column store)")],
+           requires=PRE,
+           ensures=WF + FRAME + [
+               ("C01.reserve.view", "final(self).view() == old(self).view()"),
+               ("C01.reserve.len", "final(self).len == old(self).len"),
+           ],
+           hints=[Hint("start", "let ghost vx_w0 = *self;"),
+                  Hint("end", RESERVE_PROOF)],
+           props=["C01", "C13", "C15"]),
         Fn(W, WIMPL, "contains", ret="b",
            ensures=[("C01.contains", "b == self.view().dom().contains(entity_identifier)")], props=["C01", "C02"]),
         Fn(W, WIMPL, "len", ret="n", ensures=[("C01.len", "n == self.len")], props=["C01", "C13"]),
@@ -363,6 +601,10 @@ def build():
     u.type_rewrites += [
         (r"\bregistry::Registry\b", "crate::Registry", "path of the Registry trait"),
         (r"\bself::Entities\b", "crate::EntitiesMarker", "path"),
+    ]
+    u.pre_rewrites += [
+        (r"\barchetypes\s*\.get_unchecked_mut\(", "archetypes.vx_get_unchecked_mut(",
+         "R7: Archetypes::get_unchecked_mut is a method of the external table type, not slice::get_unchecked_mut"),
     ]
     u.label_props.update({
         "C13.world_wf": ["C13", "C01", "C02"],
